@@ -2,6 +2,7 @@ package hx
 
 import (
 	"bytes"
+	"encoding/hex"
 	"encoding/json"
 	"fmt"
 	"io"
@@ -603,6 +604,54 @@ func (e *Env) QueryStats(param string, tso int64, neg bool) int {
 				w.Devices = append(w.Devices, rd)
 			}
 			j["resp"] = e.Week(w)
+		}
+	}
+	e.T.Emit(j)
+	return st
+}
+
+// QueryRecent asks /api/v1/recent-reports for the device with the given key
+// (raw is sent as the publicKey parameter when it is not empty) and records the
+// decoded reply: the non-empty entries of the 4032-slot window by index, and
+// whether the signature is the server's over the JSON encoding of the window.
+func (e *Env) QueryRecent(key, raw string) int {
+	param := raw
+	if raw == "" {
+		pk := e.KR.Pub(key)
+		param = hex.EncodeToString(pk[:])
+	}
+	path := "/api/v1/recent-reports"
+	if param != "<absent>" {
+		path += "?publicKey=" + param
+	}
+	st, body := e.Get(path)
+	j := J{"a": "RecentResp", "key": key, "wellformed": raw == "", "status": st}
+	if st == 200 {
+		var rr struct {
+			Reports        [4032]glow.EquipmentReport
+			TimeslotOffset uint32
+			Signature      glow.Signature
+		}
+		if err := json.Unmarshal(body, &rr); err != nil {
+			j["status"] = -2
+		} else {
+			slots := []Pair{}
+			for i := range rr.Reports {
+				r := rr.Reports[i]
+				if r == (glow.EquipmentReport{}) {
+					continue
+				}
+				sd := e.SR.Describe(r.Signature, RefReportSigningBytes(r.ShortID, r.Timeslot, r.PowerOutput))
+				if r.PowerOutput == 1 {
+					sd.Ok = true
+				}
+				slots = append(slots, Pair{i, J{"v": ValOf(r.PowerOutput), "sig": sd, "rid": Clamp30(uint64(r.ShortID)), "rts": Clamp30(uint64(r.Timeslot))}})
+			}
+			j["slots"] = slots
+			j["tso"] = Clamp30(uint64(rr.TimeslotOffset))
+			// the signature is over the JSON encoding of the window, by the server's key
+			enc, _ := json.Marshal(&rr.Reports)
+			j["sigok"] = e.KR.Has("srv") && glow.Verify(e.KR.Pub("srv"), enc, rr.Signature)
 		}
 	}
 	e.T.Emit(j)
